@@ -892,3 +892,54 @@ def user_local_behind(fn, op, hops=6):
         else:
             return None
     return None
+
+
+def simplify(o):
+    """resolve `.i` projections of tuple aggregates built in the same body (format_args! argument tuples, match scrutinee tuples)"""
+    if not isinstance(o, Origin):
+        return o
+    kids = [simplify(k) for k in o.kids]
+    if o.k == "field" and kids:
+        base = kids[0]
+        b = base
+        while b.k in ("ref", "deref") and b.kids:
+            b = b.kids[0]
+        if b.k == "agg" and b.a == "tuple" and str(o.a).isdigit() and int(o.a) < len(b.kids):
+            return b.kids[int(o.a)]
+    return Origin(o.k, o.a, kids, o.bb)
+
+
+def defs_origins(fn, local, depth=10):
+    """origins of every full definition of a (possibly multiply assigned) local"""
+    out = []
+    for d in local_defs(fn).get(local, []):
+        if d[1] == "partial":
+            continue
+        out.append((d[0], _origin_of_def(fn, d, depth, {local})))
+    return out
+
+
+def expand_single_def_vars(fn, o, depth=3):
+    """replace `var` leaves that have exactly one full definition (e.g. the desugared `iter` of a for loop, which is
+    only opaque because `next(&mut iter)` borrows it mutably) by the origin of that definition"""
+    if not isinstance(o, Origin) or depth < 0:
+        return o
+    if o.k == "var" and o.a.get("local") is not None:
+        ds = [d for d in local_defs(fn).get(o.a["local"], []) if d[1] != "partial"]
+        if len(ds) == 1:
+            return expand_single_def_vars(fn, _origin_of_def(fn, ds[0], 10, {o.a["local"]}), depth - 1)
+        return o
+    return Origin(o.k, o.a, [expand_single_def_vars(fn, k, depth) for k in o.kids], o.bb)
+
+
+def flatten_phi(o):
+    """alternatives of a value (phi nodes at the top, through refs/derefs)"""
+    s = o
+    while s.k in ("ref", "deref") and s.kids:
+        s = s.kids[0]
+    if s.k == "phi":
+        out = []
+        for k in s.kids:
+            out.extend(flatten_phi(k))
+        return out
+    return [o]
